@@ -1,7 +1,8 @@
 import AmVerif.Model.World
 import AmVerif.Gen.Skel
+import AmVerif.Lemmas.Ledger
 /-!
-# C13 — every stored value is dropped exactly once; type erasure never lies (work in progress)
+# C13 — every stored value is dropped exactly once; type erasure never lies
 -/
 namespace AmVerif.Props.C13
 open AmVerif.Gen AmVerif.Model
@@ -31,5 +32,118 @@ theorem skel_write : skel_entry_UntypedEntry_write =
      .call .s_wrong_handle_type] := rfl
 
 example : viewAs 3 3 = some 3 ∧ viewAs 3 4 = none := by decide
+
+/-! ## The ownership ledger
+
+The model's ghost ledger (`made` / `held` / `gone`, `Model/World.lean`) is updated at exactly the points
+where the code creates, stores, drops or hands out a value. `LedgerOK` (`Lemmas/Ledger.lean`) says: one
+entry per key, distinct addresses below the counter, the holders are exactly the live entries, no value
+is in two places or gone twice, only created values appear, and every created value is held or gone.
+It holds of the empty cache and is preserved by everything the model can do. -/
+
+theorem C13_ledger_init : LedgerOK ({} : St) := LedgerOK.init
+
+/-- every loader program: nested loads, `load_owned`, failures, panics, fuel exhaustion, helper
+threads, `no_record` -/
+theorem C13_ledger_eval (env : Env) (f : Nat) (s : St) (p : Prog) : LedgerOK s → LedgerOK (eval env f s p).1 :=
+  eval_ledger env f s p
+
+theorem C13_ledger_step (env : Env) (f : Nat) (s : St) (op : Op) : LedgerOK s → LedgerOK (step env f s op).1 :=
+  step_ledger env f s op
+
+theorem C13_ledger_reload (env : Env) (f : Nat) (s : St) (key : Key) : LedgerOK s → LedgerOK (reloadUntyped env f s key).1 :=
+  reloadUntyped_ledger env f s key
+
+/-- API operations, notifications, `hot_reload`, `enhance_hot_reloading`, the environment changing
+arbitrarily between steps -/
+theorem C13_ledger_history (fuel : Nat) (h : List (Env × HOp)) (x : St × RSt) : LedgerOK x.1 → LedgerOK (runH fuel h x).1 :=
+  runH_ledger fuel h x
+
+/-- dropping the cache drops every stored value -/
+def dropCache (s : St) : St := St.release { s with map := [] } (s.map.map (·.2.addr))
+
+theorem C13_ledger_dropCache (s : St) (h : LedgerOK s) : LedgerOK (dropCache s) := h.dropAll
+
+/-- **A created value is in exactly one place**: held by a live entry, or gone. -/
+theorem C13_one_place (s : St) (h : LedgerOK s) (v : Nat) (hv : v < s.made.length) :
+    (v ∈ s.held.map (·.2) ∧ v ∉ s.gone) ∨ (v ∉ s.held.map (·.2) ∧ v ∈ s.gone) := by
+  have hlen : (s.held.map (·.2) ++ s.gone).length = s.made.length := by
+    rw [List.length_append, List.length_map]; exact h.all
+  have hmem := mem_of_nodup_full s.made.length _ h.once h.known hlen v hv
+  have hdis := (List.nodup_append.1 h.once).2.2
+  rcases List.mem_append.1 hmem with hm | hm
+  · exact Or.inl ⟨hm, fun hg => hdis v hm v hg rfl⟩
+  · exact Or.inr ⟨fun hh => hdis v hh v hm rfl, hm⟩
+
+/-- **Exactly once.** Over every history from the empty cache (API operations, notified edits,
+`hot_reload`, `enhance_hot_reloading`, arbitrary environments), after the cache is dropped nothing
+is held, and every value ever created has gone exactly once. -/
+theorem C13_exactly_once (fuel : Nat) (h : List (Env × HOp)) :
+    let s := dropCache (runH fuel h ({}, {})).1
+    s.held = [] ∧ s.gone.Nodup ∧ s.gone.length = s.made.length ∧ ∀ v, v < s.made.length ↔ v ∈ s.gone := by
+  intro s
+  have hok : LedgerOK s := C13_ledger_dropCache _ (C13_ledger_history fuel h ({}, {}) C13_ledger_init)
+  have hheld : s.held = [] := by
+    have := hok.holders
+    have hm : s.map = [] := rfl
+    rw [hm] at this
+    exact List.map_eq_nil_iff.1 this
+  have honce := hok.once
+  have hknown := hok.known
+  have hall := hok.all
+  rw [hheld] at honce hknown hall
+  simp only [List.map_nil, List.nil_append] at honce hknown
+  simp only [List.length_nil, Nat.zero_add] at hall
+  refine ⟨hheld, honce, hall, fun v => ⟨fun hv => ?_, hknown v⟩⟩
+  exact mem_of_nodup_full s.made.length s.gone honce hknown hall v hv
+
+/-! ### Non-vacuity: a concrete history -/
+
+/-- a cache with reloader; every type is hot-reloaded and loads to `n` -/
+def exEnv (n : Int) : Env :=
+  { read := fun _ _ _ => .ok [], readDir := fun _ _ => .ok [],
+    types := fun _ => { hot := true, prog := fun _ => .ret (.int n) }, hasReloader := true }
+
+def exA : Key := ⟨0, "a"⟩
+def exB : Key := ⟨0, "b"⟩
+
+/-- two loads, a `get_or_insert` on a present key, a `load_owned`, a notified edit reloaded by
+`hot_reload` (one `write`), a `remove` -/
+def exHist : List (Env × HOp) :=
+  [(exEnv 1, .api (.load exA)), (exEnv 1, .api (.load exB)), (exEnv 1, .api (.getOrInsert exA (.int 9))),
+   (exEnv 1, .api (.loadOwned exA)), (exEnv 2, .notify [.asset exB]), (exEnv 2, .hotReload), (exEnv 2, .api (.remove exA))]
+
+/-- the ledger of that history: five values created, one still held (by the reloaded entry: the
+value written by the reload), four gone (the one passed to `get_or_insert`, the one `load_owned`
+returned, the one the reload replaced, the one `remove` dropped) -/
+example : (runH 5 exHist ({}, {})).1.made.length = 5 ∧ (runH 5 exHist ({}, {})).1.held = [(1, 4)] ∧
+    (runH 5 exHist ({}, {})).1.gone = [2, 3, 1, 0] := by decide
+
+example : (dropCache (runH 5 exHist ({}, {})).1).held = [] ∧ (dropCache (runH 5 exHist ({}, {})).1).gone = [2, 3, 1, 0, 4] ∧
+    (dropCache (runH 5 exHist ({}, {})).1).made.length = 5 := by decide
+
+example : (dropCache (runH 5 exHist ({}, {})).1).gone.Nodup ∧
+    ∀ v, v < (dropCache (runH 5 exHist ({}, {})).1).made.length ↔ v ∈ (dropCache (runH 5 exHist ({}, {})).1).gone :=
+  ⟨(C13_exactly_once 5 exHist).2.1, (C13_exactly_once 5 exHist).2.2.2⟩
+
+/-- before the drop: value 4 is held and not gone, value 0 is gone and not held -/
+example : (4 ∈ (runH 5 exHist ({}, {})).1.held.map (·.2) ∧ 4 ∉ (runH 5 exHist ({}, {})).1.gone) ∧
+    (0 ∉ (runH 5 exHist ({}, {})).1.held.map (·.2) ∧ 0 ∈ (runH 5 exHist ({}, {})).1.gone) := by decide
+
+example : (4 ∈ (runH 5 exHist ({}, {})).1.held.map (·.2) ∧ 4 ∉ (runH 5 exHist ({}, {})).1.gone) ∨
+    (4 ∉ (runH 5 exHist ({}, {})).1.held.map (·.2) ∧ 4 ∈ (runH 5 exHist ({}, {})).1.gone) :=
+  C13_one_place _ (C13_ledger_history 5 exHist ({}, {}) C13_ledger_init) 4 (by decide)
+
+/-- a loader that loads its own key once (the second checkpoint lets it return): the inner load
+stores its value, the outer one loses the insertion and its value is dropped with its entry -/
+def exEnvRec : Env :=
+  { read := fun _ _ _ => .ok [], readDir := fun _ _ => .ok [],
+    types := fun _ => { hot := true, prog := fun id => .tick fun fl => if fl = some true then .ret (.int 7) else .load ⟨0, id⟩ Prog.ret' },
+    hasReloader := true, loaderFault := fun n => if n = 1 then some true else none }
+
+example : (runH 6 [(exEnvRec, .api (.load exA))] ({}, {})).1.made.length = 2 ∧
+    (runH 6 [(exEnvRec, .api (.load exA))] ({}, {})).1.held = [(0, 0)] ∧
+    (runH 6 [(exEnvRec, .api (.load exA))] ({}, {})).1.gone = [1] ∧
+    (runH 6 [(exEnvRec, .api (.load exA))] ({}, {})).1.dropped = [1] := by decide
 
 end AmVerif.Props.C13
